@@ -15,3 +15,7 @@ func SQLRowText(db *sql.DB, i int) string { return "" }
 
 // SQLInsertRaw inserts a row behind the SDK's back (the "reference implementation writes" direction).
 func SQLInsertRaw(db *sql.DB, id string, createdUnix int64, keyRecord string) {}
+
+// SQLRowID / SQLRowCreated are the id column and the created column (unix seconds) of row i.
+func SQLRowID(db *sql.DB, i int) string      { return "" }
+func SQLRowCreated(db *sql.DB, i int) int64 { return 0 }
